@@ -177,10 +177,19 @@ def op_strategy(draw, specs, mode):
 
 
 @st.composite
+def step_strategy(draw, specs, mode):
+    if draw(st.integers(0, 7)) == 0:
+        members = [draw(op_strategy(specs, mode)) for _ in range(draw(st.integers(1, 5)))]
+        # a member addressing an unknown *tag* by name cannot be parsed inside a bundle any differently than alone; keep it
+        return {'svc': 'bundle', 'members': members, 'sess': draw(st.integers(0, 1)), 'wrap': True, 'tag': ''}
+    return draw(op_strategy(specs, mode))
+
+
+@st.composite
 def case_strategy(draw, mode, max_ops, types=M.ALL_TYPES, allow_big=True):
     specs = draw(specs_strategy(types=types, allow_big=allow_big))
     nops = draw(st.integers(1, max_ops))
-    ops = [draw(op_strategy(specs, mode)) for _ in range(nops)]
+    ops = [draw(step_strategy(specs, mode)) for _ in range(nops)]
     return {'specs': specs, 'ops': ops}
 
 
@@ -207,6 +216,75 @@ def out_of_type_range(dev):
     return bad
 
 
+def run_bundle(case, stats, clause, dev, mdl, sess, step, op, classes):
+    """A Multiple Service Packet as one step: every member is judged like a single request.  -> False to stop."""
+    msgs, members = [], []
+    for m in op['members']:
+        name = mdl.lower.get(m['tag'].lower())
+        if m.get('unknown_object'):
+            address, ttype = tuple(m['unknown_object']), None
+        elif name is None:
+            address, ttype = None, None
+        else:
+            address, ttype = mdl.tags[name]['address'], mdl.tags[name]['type']
+        if m['svc'] == 'set_attr':
+            if not m.get('values'):
+                stats.exclude('bundled set_attr without data')
+                continue
+            try:
+                rc.enc_values(ttype or 'INT', m['values'])
+            except Exception:
+                stats.exclude('set_attr values not encodable')
+                continue
+        msgs.append(M.op_message(m, ttype, address))
+        members.append(m)
+    if not msgs:
+        return True
+    before = dev.snapshot()
+    out = sess.send(rc.req_multiple(msgs))
+    classes.add('bundle:%d' % min(len(members), 5))
+    named_unknown = any(mdl.lower.get(m['tag'].lower()) is None and not m.get('unknown_object') for m in members)
+    if out['reply'] is None:
+        # a symbolic member that cannot be resolved ends the session for the whole bundle (as it does alone)
+        if not named_unknown:
+            stats.fail(clause, 'bundle-without-cip-reply', case, observed={'step': step, 'outcome': out['kind'], 'enip_status': out['enip_status'],
+                       'error': out.get('error')}, expected='a Multiple Service Packet reply')
+        if dev.snapshot() != before:
+            stats.fail(clause, 'refused-or-read-request-changed-tags', case, observed={'step': step, 'bundle': True}, expected='no change')
+            return False
+        return True
+    rb = out['reply']
+    try:
+        parts = [rc.dec_mr_reply(x) for x in rc.dec_multiple_body(rb['data'])] if rb['status'] == 0 else None
+    except rc.RefDecodeError as exc:
+        stats.fail(clause, 'bundle-reply-undecodable', case, observed={'step': step, 'error': str(exc)}, expected='well-formed bundle reply')
+        return False
+    if parts is None or len(parts) != len(members):
+        stats.fail(clause, 'bundle-reply-shape', case, observed={'step': step, 'reply': M._r(rb)}, expected='status 0 and one member reply per request')
+        return False
+    took = False
+    for m, r in zip(members, parts):
+        if m.get('unknown_object'):
+            exp = {'kind': 'noattr'} if (m.get('unknown_attribute') and m['svc'] not in ('get_attr', 'set_attr')) else {'kind': 'unknown'}
+        else:
+            exp = M.expect(mdl, m)
+        for sig, detail in M.judge(mdl, m, exp, {'kind': 'reply', 'enip_status': 0, 'reply': r}):
+            stats.fail(clause, 'bundled:' + sig, case, observed={'step': step, 'member': m, 'detail': detail},
+                       expected='each bundled request behaves as the typed-array model requires (%s)' % exp['kind'])
+        classes.add('bundled:%s:%s' % (m['svc'], exp['kind']))
+        took = took or bool(exp.get('took'))
+    after = dev.snapshot()
+    if not took and after != before:
+        stats.fail(clause, 'refused-or-read-request-changed-tags', case, observed={'step': step, 'bundle': True,
+                   'changed': [n for n in after if after[n] != before[n]]}, expected='no tag changes unless a member write took effect')
+    if after != mdl.snapshot():
+        diff = [n for n in after if after[n] != mdl.snapshot()[n]]
+        stats.fail(clause, 'state-differs-from-model', case, observed={'step': step, 'bundle': True, 'tags': diff},
+                   expected='only the addressed elements of the addressed tags change')
+        return False
+    return True
+
+
 def run_history(case, stats, pid, clause):
     specs, ops = case['specs'], case['ops']
     dev = sim.Device(specs)
@@ -228,6 +306,10 @@ def run_history(case, stats, pid, clause):
         wrote_any = False
         nontrivial = False
         for step, op in enumerate(ops):
+            if op['svc'] == 'bundle':
+                if not run_bundle(case, stats, clause, dev, mdl, session(op['sess']), step, op, classes):
+                    break
+                continue
             name = mdl.lower.get(op['tag'].lower())
             address = None
             ttype = None
